@@ -58,7 +58,7 @@ fn draw_fault_call(rng: &mut Rng, tier: Tier) -> Call {
             Call::DirRead { entries: draw_entries(rng, n, false), ic: 1 + rng.below(4) as u8 }
         }
         16 | 17 => {
-            let n = *rng.pick(&[0usize, 1, 3, 40, 400]);
+            let n = *rng.pick(&[0usize, 1, 3, 40, 400, 4200, 9000]);
             Call::DirWrite { entries: draw_entries(rng, n, false), ic: 1 + rng.below(4) as u8 }
         }
         18 => Call::ReadDirs { src: ImageSrc::Foreign(draw_foreign(rng, false)), range: RangeSpec::ALL },
